@@ -269,6 +269,7 @@ fn ops_case(line: &str) -> String {
 //         4     check
 //         5     restore the latest snapshot and compare with its source
 //         6     repair index --read-all
+//         7     check --read-data (plus, on hot+cold, read_full(Pack) of every pack through the real wrapper)
 //   dmg_p: per-mille probability with which each hot key/snapshot/index/pack file is removed before the repair
 //   fail_at: n > 0: the n-th inner mutating call of the hot/cold run fails without effect (0 = no fault)
 //   dmg_cfg: 1 = the hot config is removed too;  trunc: 1 = one remaining hot file is cut short (incomplete)
@@ -426,10 +427,38 @@ fn do_step(e: &mut Env, tmp: &Path, step: &[u64]) -> String {
                 let got = tree_digest(&dest_dir.path().join("data"));
                 Ok(format!("ok same={}", want == got))
             }
-            _ => {
+            6 => {
                 let repo = open(e)?;
                 repo.repair_index(&RepairIndexOptions::default().read_all(true), false)?;
                 Ok("ok".into())
+            }
+            _ => {
+                // check --read-data; on hot+cold additionally read_full(Pack) of every pack through the real wrapper
+                let repo = open(e)?;
+                let r = repo.check(CheckOptions::default().read_data(true))?;
+                let mut s: String = match r.is_ok() {
+                    Ok(()) => "ok clean".into(),
+                    Err(_) => "ok errors".into(),
+                };
+                if let Some(hot) = e.bes.repo_hot() {
+                    let hc = hotcold_backend(e.bes.repository(), hot);
+                    let trees: BTreeSet<Id> = e.w.lock().unwrap().log.iter().filter(|ev| ev.ft == 4 && ev.write && ev.cacheable).map(|ev| ev.id).collect();
+                    let packs: Vec<Id> = e.w.lock().unwrap().maps[1].keys().filter(|k| k.0 == 4).map(|k| k.1).collect();
+                    let (mut df, mut dn, mut tf, mut tn) = (0, 0, 0, 0);
+                    for id in packs {
+                        let _ = hc.warm_up(FileType::Pack, &id);
+                        let ok = hc.read_full(FileType::Pack, &id).is_ok();
+                        if trees.contains(&id) {
+                            tn += 1;
+                            tf += !ok as u32;
+                        } else {
+                            dn += 1;
+                            df += !ok as u32;
+                        }
+                    }
+                    s.push_str(&format!(" data_read_full_fail={df}/{dn} tree_read_full_fail={tf}/{tn}"));
+                }
+                Ok(s)
             }
         }
     })();
@@ -581,30 +610,37 @@ fn e2e_case(line: &str) -> String {
     let _ = out.insert("truncated".into(), truncated);
     let (_, trees) = log_line(&hc.w.lock().unwrap(), &mut ids, 0);
     let before = state_line(&hc.w.lock().unwrap(), &mut ids, false);
-    let mut rl: Vec<String> = vec![trees.len().to_string()];
-    rl.extend(trees.iter().map(|x| x.to_string()));
+    let mut rl_state: Vec<String> = vec![];
     {
         let w = hc.w.lock().unwrap();
         for m in [&w.maps[0], &w.maps[1]] {
             let es: Vec<_> = m.iter().filter(|((ft, _), _)| *ft != 0).collect();
-            rl.push(es.len().to_string());
+            rl_state.push(es.len().to_string());
             for ((ft, id), b) in es {
                 let (l, h) = abs_content(b);
-                rl.push(format!("{} {} {} {}", ft, ids.get(id), l, h));
+                rl_state.push(format!("{} {} {} {}", ft, ids.get(id), l, h));
             }
         }
     }
-    let _ = out.insert("repair_in".into(), rl.join(" ").into());
+    // tree packs by the cacheable flag of their write that the cold store holds now
+    let tp_flags: Vec<u64> = {
+        let w = hc.w.lock().unwrap();
+        let held: BTreeSet<u64> = w.maps[1].keys().filter(|k| k.0 == 4).map(|k| ids.get(&k.1)).collect();
+        trees.iter().copied().filter(|t| held.contains(t)).collect()
+    };
+    let _ = out.insert("tp_flags".into(), tp_flags.into());
     let _ = out.insert("state_before_repair".into(), before.into());
     hc.w.lock().unwrap().warm.clear();
     let dmg_len = hc.w.lock().unwrap().log.len();
     let _ = out.insert("dmg_len".into(), dmg_len.into());
     let unw0 = hc.w.lock().unwrap().unwarmed_reads.len();
+    let mut tp_index: Option<BTreeSet<Id>> = None;
     let rep: RusticResult<String> = (|| {
         let repo = Repository::new(&hc.opts, &hc.bes)?.open_only_cold(&Credentials::password("pw"))?;
         repo.init_hot()?;
         repo.repair_hotcold_except_packs(false)?;
         let repo = open(&hc)?;
+        tp_index = Some(rustic_core::verif_hooks::c16::tree_packs(&repo)?);
         repo.repair_hotcold_packs(false)?;
         let c = repo.check(CheckOptions::default())?;
         Ok(match c.is_ok() {
@@ -613,6 +649,22 @@ fn e2e_case(line: &str) -> String {
         })
     })();
     let _ = out.insert("repair".into(), match rep { Ok(s) => s, Err(er) => res_str::<()>(&Err(er)) }.into());
+    {
+        // input of the model's repair: the tree packs the index names (what repair_hotcold_packs uses), then the state
+        let tp: Vec<u64> = match &tp_index {
+            Some(t) => {
+                let mut v: Vec<u64> = t.iter().map(|i| ids.get(i)).collect();
+                v.sort();
+                v
+            }
+            None => trees.clone(),
+        };
+        let mut rl: Vec<String> = vec![tp.len().to_string()];
+        rl.extend(tp.iter().map(|x| x.to_string()));
+        rl.extend(rl_state.iter().cloned());
+        let _ = out.insert("repair_in".into(), rl.join(" ").into());
+        let _ = out.insert("tp_index".into(), tp.into());
+    }
     let _ = out.insert("unwarmed_reads_repair".into(), (hc.w.lock().unwrap().unwarmed_reads.len() - unw0).into());
     let _ = out.insert("state_after_repair".into(), state_line(&hc.w.lock().unwrap(), &mut ids, false).into());
     {
